@@ -290,7 +290,25 @@ pub fn edit(ctx: &mut Ctx) {
             ctx.violation("C14", "editing command wrote an archive that is not well-formed", json!({"case":attrs,"why":why}));
         }
         // ---- frame / target oracle (C10, C13)
-        let (fb, fa) = (flat(&before), flat(&after));
+        // what the strategy hands on: `--unsolid` writes a file entry of an *encrypted* block under the block's codec,
+        // cipher and mode (inside the block it is stored in the clear); everything else is the entry as it was
+        let fb: Vec<LEntry> = before
+            .iter()
+            .flat_map(|i| match i {
+                LItem::Normal(e) => vec![e.clone()],
+                LItem::Solid { hdr, entries, .. } => entries
+                    .iter()
+                    .map(|e| {
+                        let mut e = e.clone();
+                        if strategy == "unsolid" && hdr.len() == 5 && hdr[3] != 0 && e.kind == 0 {
+                            e.data = format!("{}{}{}{}", hdr[2], hdr[3], hdr[4], &e.data[3..]);
+                        }
+                        e
+                    })
+                    .collect(),
+            })
+            .collect();
+        let fa = flat(&after);
         let kept: Vec<&LEntry> = if cmd == "delete" { fb.iter().filter(|e| !args.iter().any(|_| false) && !(sel.contains(&e.name))).collect() } else { fb.iter().collect() };
         if cmd == "delete" {
             // excluded entries are kept as well; recompute with the exclusion
